@@ -667,6 +667,10 @@ def check(src, rep, tier):
         f, terms, raised = extract_block_template(src, rep, all_terms=True)
         return f, [cut_lines(term) for term in terms]
     rep.guard('C04.R1', r0_writer_order, src)
+    from . import common
+    rep.need('C04.R5', 1)
+    rep.guard('C04.R5', common.check_line_primitive, src, 'C04.R5', [M + ':Changelog.parse_changelog'],
+              'a change line that contains such a character is cut in two when the changelog is given as one text')
     out = rep.guard('C04.R4', templ)
     if out is None:
         return
